@@ -262,12 +262,13 @@ class NetworkService(ModelElement):
         elif len(sites) == 1:
             # set the site property if possible
             old_site = self.site
-            if not self.site:
-                self.site = sites.pop()
+            inferred_site = sites.pop()
+            if not old_site:
+                self.site = inferred_site
 
-            if old_site and old_site != self.site:
+            if old_site and old_site != inferred_site:
                 raise TopologyException(f"For service {self.name} originally specified site {old_site} does not"
-                                        f"match the site {self.site} inferred from connected interfaces.")
+                                        f"match the site {inferred_site} inferred from connected interfaces.")
         else:
             if self.site:
                 raise TopologyException(f"Service {self.name} of type {self.type} is multi-site, "
